@@ -93,4 +93,9 @@ def getVersion (sm : ServerMap) (v : Option VerInfo) : Option VerInfo :=
   | some v => if v ∈ sm.recoverable then some v else none
   | none => sm.bestRecoverable
 
+/-- what `_verify_all_shares` does to the servermap before `_make_checker_results` reads it: `Retrieve(verify=True)`
+    calls `servermap.mark_bad_share(server, shnum, checkstring)` for every share that fails a check -/
+def afterVerify (sm : ServerMap) (bads : List (ShareKey × List Nat)) : ServerMap :=
+  bads.foldl (fun m b => m.markBadShare b.1.1 b.1.2 b.2) sm
+
 end Tahoe.Mutable.Check
